@@ -18,8 +18,8 @@ FileCases ==
     cfg |-> [nb |-> raw[i].cfg.nb, lb |-> raw[i].cfg.lb, start |-> raw[i].cfg.start, once |-> raw[i].cfg.once,
              skip |-> {j \in DOMAIN raw[i].cfg.skip : raw[i].cfg.skip[j]}]] : i \in DOMAIN raw}
 
-GenCases == CASE Mode = "file" -> FileCases [] Mode = "plain" -> CasesPlain [] Mode = "ctl" -> CasesCtl [] Mode = "subset" -> CasesSubset
-              [] Mode = "plain3" -> CasesPlain3 [] Mode = "plainonce" -> CasesPlainOnce [] Mode = "ctl2" -> CasesCtl2
+GenCases == CASE Mode = "file" -> FileCases [] Mode = "plain" -> CasesPlain(0) [] Mode = "ctl" -> CasesCtl(0) [] Mode = "subset" -> CasesSubset(0)
+              [] Mode = "plain3" -> CasesPlain3(0) [] Mode = "plainonce" -> CasesPlainOnce(0) [] Mode = "ctl2" -> CasesCtl2(0)
 
 Emit == done => PrintT(ToJson([g |-> case.g, sel |-> case.sel,
                                cfg |-> [nb |-> Cfg.nb, lb |-> Cfg.lb, start |-> Cfg.start, once |-> Cfg.once,
